@@ -7,6 +7,7 @@ Local Open Scope Z_scope.
 Inductive c12case :=
 | AbortCase (actively_persisted_add : bool) (phase : nat) (impl_exists : bool)
 | RaceCase (winner_commits_first : bool) (impl_loser_failed : bool) (impl_exists : bool)
+| RetryCase (rivals : nat) (clash : bool) (impl_committed : bool) (impl_exists : bool)
 | SerialCase (k : nat) (impl_list_entries : nat)
 | RecreateCase (n : nat) (opts2 : Z) (impl_artefact_between : bool) (impl_count_after_two_adds : Z) (impl_opts : Z).
 
@@ -18,6 +19,13 @@ Definition c12_check (c : c12case) : bool :=
       let '(cat, k1, k2) := run_two [true; false; false; true] 1 4 ([], idle, idle) in
       Bool.eqb (match cr_out k2 with Some Failed => true | _ => false end) lf
       && Bool.eqb (match sr_get cat 1 with Some _ => true | None => false end) e
+  | RetryCase rivals clash ic ie =>
+      (* the creator modified the existing store too; every rival commit on it before the creator's
+         Commit makes the creator's first round a conflict (detected at commitUpdatedNodes); the merge
+         of the existing store succeeds iff no rival took the creator's key *)
+      let rs := match rivals with O => [RoundCommitted] | S _ => [RoundConflict commitUpdatedNodes (negb clash); RoundCommitted] end in
+      let '(cat, committed) := commit_loop rs [fresh_store 1 4] [1%N] in
+      Bool.eqb committed ic && Bool.eqb (present cat 1) ie
   | SerialCase k n => Nat.eqb (count_name (fst (serial k [] 1 4)) 1) n
   | RecreateCase n o2 between cnt o =>
       let c0 := [mkStore 1 4 (Z.of_nat n) n] in
